@@ -27,9 +27,10 @@ class TooManyPaths(Exception):
 
 
 class Call:
-    __slots__ = ("bb", "name", "names", "args", "term", "t", "epoch", "pos")
+    __slots__ = ("bb", "name", "names", "args", "term", "t", "epoch", "pos", "body")
 
-    def __init__(self, bb, t, args, term, epoch, pos):
+    def __init__(self, bb, t, args, term, epoch, pos, body=None):
+        self.body = body        # the Body the call is written in (a closure body when the call was reached through an expanded combinator)
         f = t["fn"]
         self.bb = bb
         self.t = t
@@ -171,11 +172,17 @@ def norm_fact(d, truth):
 
 
 class Evaluator:
-    def __init__(self, body, max_paths=4000):
+    def __init__(self, body, max_paths=4000, combinators=False):
         self.body = body
         self.max_paths = max_paths
         self._glob = {}
         self._busy = set()
+        # combinators=True: calls of Option::{map, filter, unwrap_or, unwrap_or_else, map_or, map_or_else, and_then, or, or_else, copied, cloned} and
+        # bool::{then, then_some} are evaluated by their definition (a case split on Some/None resp. true/false, closure bodies evaluated in place with
+        # their captures), so that a path carries the same facts, calls and value terms as the `match` / `if` the combinator chain stands for
+        self.combinators = combinators
+        self.tagp = ""          # prefix of the "#<bb>" call tags (closure bodies evaluated in place get their own name space)
+        self.depth = 0
 
     # ---- terms -------------------------------------------------------------------------------------
     def operand(self, o, env):
@@ -332,11 +339,145 @@ class Evaluator:
         env[l] = ("upd", self.local(l, env), why)
 
     # ---- paths -----------------------------------------------------------------------------------------
-    def paths(self, start=0, stop=(), env=None):
+    def paths(self, start=0, stop=(), env=None, epoch=0, pos=0):
         out = []
         stop = set(stop)
-        self._walk(start, dict(env or {}), Path(), stop, out, 0, 0, True)
+        self._walk(start, dict(env or {}), Path(), stop, out, epoch, pos, True)
         return out
+
+    # ---- combinators evaluated by their definition -------------------------------------------------------
+    _COMB = re.compile(r"^(?:std|core)::option::Option::<T>::(map|filter|unwrap_or|unwrap_or_else|map_or|map_or_else|and_then|or|or_else|copied|cloned)$"
+                       r"|^(?:std|core)::bool::<impl bool>::(then|then_some)$")
+    OPTION = "std::option::Option"
+
+    @classmethod
+    def some(cls, v):
+        return ("agg", cls.OPTION, "Some", (v,), ("0",))
+
+    @classmethod
+    def none(cls):
+        return ("agg", cls.OPTION, "None", (), ())
+
+    def _invoke(self, f, args, epoch, pos, site):
+        """outcomes [(facts, asserts, calls, stores, value, epoch, pos)] of calling closure term f with argument terms; None when f is not a closure
+        of this crate whose body is loop free and returns on every path"""
+        if not (isinstance(f, tuple) and f[0] == "agg" and f[1].startswith("closure:")) or self.depth >= 4:
+            return None
+        cb = self.body.prog.body(f[1][len("closure:"):])
+        if cb is None or cb.arg_count != 1 + len(args):
+            return None
+        sub = Evaluator(cb, self.max_paths, True)
+        sub.depth = self.depth + 1
+        sub.tagp = "%s%d~" % (self.tagp, site)
+        env = {1: f}
+        for i, a in enumerate(args):
+            env[2 + i] = a
+        try:
+            ps = sub.paths(0, (), env, epoch, pos)
+        except TooManyPaths:
+            return None
+        outs = []
+        for p in ps:
+            if p.end[0] in ("infeasible", "unreachable"):
+                continue
+            if p.end[0] != "return" or p.ret is None:
+                return None
+            outs.append((p.facts, p.asserts, p.calls, p.stores, p.ret, p.epoch, p.pos))
+        return outs or None
+
+    @staticmethod
+    def _bool_const(t):
+        if is_const(t):
+            if t[1] in ("true", "false"):
+                return t[1] == "true"
+            if const_int(t) in (0, 1):
+                return const_int(t) == 1
+        return None
+
+    def _opt_split(self, opt, facts):
+        """[(is_some, payload, new facts)] of an Option-valued term under the facts of the path"""
+        if opt[0] == "agg" and opt[1] == self.OPTION:
+            return [(True, opt[3][0], [])] if opt[2] == "Some" and opt[3] else [(False, None, [])]
+        payload = ("f", ("dc", opt, "Some"), "0")
+        for f in facts:
+            if f[0] == "is" and f[1] == opt:
+                return [(True, payload, [])] if f[2] == "1" else [(False, None, [])]
+            if f[0] == "isnot" and f[1] == opt and set(f[2]) & {"0", "1"}:
+                return [(False, None, [])] if "1" in f[2] else [(True, payload, [])]
+        return [(True, payload, [("is", opt, "1")]), (False, None, [("is", opt, "0")])]
+
+    def _combinator(self, t, args, facts, epoch, pos, site):
+        """outcomes (as _invoke) of a combinator call evaluated by its definition; None: treat as an ordinary call"""
+        f = t["fn"]
+        m = None
+        for n in (f.get("resolved"), f.get("path")):
+            m = m or (self._COMB.match(n) if n else None)
+        if m is None or not args:
+            return None
+        op = m.group(1) or m.group(2)
+        plain = lambda fs, v: (list(fs), [], [], [], v, epoch, pos)     # noqa: E731
+
+        def called(fs, fn, fargs, wrap):
+            rs = self._invoke(fn, fargs, epoch, pos, site)
+            if rs is None:
+                return None
+            return [(list(fs) + list(r[0]), r[1], r[2], r[3], wrap(r[4]), r[5], r[6]) for r in rs]
+        ident = lambda v: v     # noqa: E731
+        outs = []
+        if op in ("then", "then_some"):
+            b = self._bool_const(args[0])
+            for truth in (True, False):
+                if b is not None and b != truth:
+                    continue
+                fs = [] if b is not None else [norm_fact(args[0], truth)]
+                if not truth:
+                    outs.append(plain(fs, self.none()))
+                elif op == "then_some":
+                    outs.append(plain(fs, self.some(args[1])))
+                else:
+                    r = called(fs, args[1], (), self.some)
+                    if r is None:
+                        return None
+                    outs += r
+            return outs
+        for is_some, x, fs in self._opt_split(args[0], facts):
+            r = None
+            if op == "map":
+                r = called(fs, args[1], (x,), self.some) if is_some else [plain(fs, self.none())]
+            elif op in ("copied", "cloned"):
+                r = [plain(fs, self.some(x) if is_some else self.none())]
+            elif op == "filter":
+                if not is_some:
+                    r = [plain(fs, self.none())]
+                else:
+                    rs = called(fs, args[1], (x,), ident)
+                    if rs is not None:
+                        r = []
+                        for o in rs:
+                            b = self._bool_const(o[4])
+                            for truth in (True, False):
+                                if b is not None and b != truth:
+                                    continue
+                                extra = [] if b is not None else [norm_fact(o[4], truth)]
+                                r.append((o[0] + extra, o[1], o[2], o[3], self.some(x) if truth else self.none(), o[5], o[6]))
+            elif op == "unwrap_or":
+                r = [plain(fs, x if is_some else args[1])]
+            elif op == "unwrap_or_else":
+                r = [plain(fs, x)] if is_some else called(fs, args[1], (), ident)
+            elif op == "map_or":
+                r = called(fs, args[2], (x,), ident) if is_some else [plain(fs, args[1])]
+            elif op == "map_or_else":
+                r = called(fs, args[2], (x,), ident) if is_some else called(fs, args[1], (), ident)
+            elif op == "and_then":
+                r = called(fs, args[1], (x,), ident) if is_some else [plain(fs, self.none())]
+            elif op == "or":
+                r = [plain(fs, (args[0] if args[0][0] == "agg" else self.some(x)) if is_some else args[1])]
+            elif op == "or_else":
+                r = [plain(fs, args[0] if args[0][0] == "agg" else self.some(x))] if is_some else called(fs, args[1], (), ident)
+            if r is None:
+                return None
+            outs += r
+        return outs or None
 
     def _walk(self, bb, env, path, stop, out, epoch, pos, first):
         body = self.body
@@ -392,11 +533,34 @@ class Evaluator:
                 continue
             if k == "call":
                 imp = self.impure(t)
-                tag = "@%d" % epoch if self.value_call(t) else "#%d" % bb
+                tag = "@%d" % epoch if self.value_call(t) else "#%s%d" % (self.tagp, bb)
+                outs = self._combinator(t, tuple(self.operand(a, env) for a in t["args"]), path.facts, epoch, pos, bb) if self.combinators and t["t"] >= 0 else None
+                if outs:
+                    d = t["dest"]
+                    last = len(outs) - 1
+                    for i, (fs, asr, cs, sts, val, ep2, pos2) in enumerate(outs):
+                        p2 = self._fork(path) if i < last else path
+                        e2 = dict(env) if i < last else env
+                        p2.facts += [f for f in fs if f not in p2.facts]
+                        p2.asserts += asr
+                        p2.calls += cs
+                        p2.stores += sts
+                        if not d["p"]:
+                            e2[d["l"]] = val
+                        else:
+                            p2.stores.append((self.place(d, e2), val, bb, pos2))
+                        if i < last:
+                            if len(out) > self.max_paths:
+                                raise TooManyPaths(self.body.path)
+                            self._walk(t["t"], e2, p2, stop, out, ep2, pos2, False)
+                        else:
+                            epoch, pos = ep2, pos2
+                    bb = t["t"]
+                    continue
                 term = self.call_term(bb, t, env, tag)
                 if not self.transparent(t):
                     pos += 1
-                    path.calls.append(Call(bb, t, tuple(self.operand(a, env) for a in t["args"]), term, epoch, pos))
+                    path.calls.append(Call(bb, t, tuple(self.operand(a, env) for a in t["args"]), term, epoch, pos, body))
                 if imp:
                     epoch += 1
                     for a, ty in zip(t["args"], t.get("arg_tys", [])):
@@ -468,6 +632,7 @@ class Evaluator:
             path.end = (k, bb)
             break
         path.env = env
+        path.epoch, path.pos = epoch, pos
         out.append(path)
 
     def stable(self, d):
@@ -532,8 +697,8 @@ class Evaluator:
         return [("eq", d, ("c", vals[0]))] if len(vals) == 1 else []
 
 
-def evaluator(body, max_paths=4000):
-    return Evaluator(body, max_paths)
+def evaluator(body, max_paths=4000, combinators=False):
+    return Evaluator(body, max_paths, combinators)
 
 
 # ---- order reasoning over facts -----------------------------------------------------------------------
